@@ -730,10 +730,40 @@ def r3_reorder(ctx):
                 pv = "b" if lq0 else (f"np.hstack(({q}, b))" if last else f"np.hstack((b, {q}))")
                 want = f"M[:, {pv}]" if drm else f"M[np.ix_({pv}, {pv})]"
                 ok = S.same(r, want)
-                ur = unfn(r)
-                bv, qv = S.root("b"), S.root(q)
-                vocab = [bv, qv, S.root(f"np.hstack((b, {q}))"), S.root(f"np.hstack(({q}, b))")]
-                if not ok and not (ur is not None and ur[0] == "idx" and eq(ur[1][0], S.root("M")) and _recognised(ur[1][1], vocab)):
+                bv, qv, Mv, nv = S.root("b"), S.root(q), S.root("M"), S.root("np.size(M, 1)")
+
+                def understood(sel):
+                    """a selector the rule can judge: the boundary set, its complement, these joined or put into another order, the complement of the
+                    boundary set within a range the facts say is not range(np.size(M, 1)), a full slice"""
+                    if not is_rat(sel):
+                        return False
+                    if eq(sel, bv) or eq(sel, qv) or cs._full_slice(sel):
+                        return True
+                    us = unfn(sel)
+                    if us is not None and us[0] == "cat":
+                        return all(is_rat(x) and understood(x) for x in us[1])
+                    sc_ = split_call(sel)
+                    if sc_ is not None and sc_[0] in REORDER and sc_[1] and not sc_[2]:
+                        return understood(sc_[1][0])
+                    if sc_ is not None and sc_[0] == "locate.flippv" and len(sc_[1]) == 2 and not sc_[2] and eq(sc_[1][0], bv):
+                        try:
+                            return S.ev.facts.lookup_sign(nv - sc_[1][1]) in ("pos", "neg")
+                        except Unsupported:
+                            return False
+                    return False
+
+                def selection_of_M(v, depth=0):
+                    """M indexed (possibly several times in a row) by understood selectors only"""
+                    if eq(v, Mv):
+                        return depth > 0
+                    uv = unfn(v) if is_rat(v) else None
+                    if uv is None or uv[0] != "idx" or depth > 4 or not is_rat(uv[1][1]):
+                        return False
+                    sc_ = split_call(uv[1][1])
+                    sels = list(sc_[1]) if sc_ is not None and sc_[0] == "np.ix_" and not sc_[2] else (untuple(uv[1][1]) or [uv[1][1]])
+                    return all(understood(x) for x in sels) and selection_of_M(uv[1][0], depth + 1)
+
+                if not ok and not selection_of_M(r):
                     # not a selection of M by the boundary set / its complement in some arrangement: nothing can be said (exit 2)
                     ctx.error(f"cbreorder (drm={drm}, last={last}, q empty={lq0}): the returned value is not M indexed by the boundary set and its complement", fn, _r(r, 300))
                     continue
